@@ -5,7 +5,7 @@ CONSTANTS
   N2 = 2
   N3 = 2
   FullRest = FALSE
-  Widths = {3, 7, 12, 40}
+  Widths = {3, 8, 40}
   Indents = {1, 4}
   MLs = {1000}
   Rule = "fixed"
